@@ -20,10 +20,15 @@ def run(res):
         # 1. queue differential
         rc, out = sh([exe, "queue", ops, impl, res.tier], env={"VERIF_SEED": str(seed())}, timeout=3000)
         if rc != 0:
-            last = open(ops).read().splitlines()[-1:] if os.path.exists(ops) else [""]
+            data = open(ops).read().splitlines() if os.path.exists(ops) else []
+            starts = [i for i, l in enumerate(data) if l.startswith("q.new")]
+            episode = data[starts[-1]:] if starts else data
             site = asan_site(out)
-            res.violation("crash-queue-%s" % (site[0] if site else "unknown"), "sanitizer abort in %s during queue operation `%s`" % (site, last[0][:200]),
-                          {"sanitizer": out[-1200:]})
+            os.makedirs(os.path.join(ROOT, "replays"), exist_ok=True)
+            rp = os.path.join(ROOT, "replays", "C16-queue-crash-seed%d.txt" % seed())
+            open(rp, "w").write("\n".join(episode) + "\n")
+            res.violation("crash-queue-%s" % (site[0] if site else "unknown"), "sanitizer abort in %s during queue operation `%s` (history: %s)" % (site, (episode or [""])[-1][:200], rp),
+                          {"failing_ops": rp, "sanitizer": out[-1200:]})
             found = True
         else:
             histo += [l for l in out.splitlines() if l.startswith("HISTO")]
